@@ -1,4 +1,4 @@
 SPECIFICATION Spec
-CONSTANTS MaxDepth = 4 WNeg = 1 WHi = 1 K = 2 Full2 = FALSE
+CONSTANTS MaxDepth = 3 Sel = "full" WNeg = 1 WHi = 1 K = 2 Full2 = FALSE
 INVARIANTS Inv_StateOK Inv_Clauses Inv_Total
 CHECK_DEADLOCK FALSE
